@@ -132,6 +132,10 @@ func TestVerif_C07(t *testing.T) {
 			}
 		}
 		frames := detStream(rng, cfg, nf, rng.PickInt(0, 0, 3, 10))
+		if idx%7 == 3 && cfg.W < 100 {
+			// blinking warm blob over a scene wholly at or below the threshold
+			frames = blobStream(rng, cfg, rng.Range(6, 40), rng.PickInt(0, 0, 5))
+		}
 		via := idx%2 == 1
 		bad := -1
 		c.Case(idx, func() interface{} { return detStreamDesc(cfg, frames, bad)() }, func() {
@@ -174,6 +178,9 @@ func TestVerif_C07(t *testing.T) {
 				}
 			}
 			c.Count("motion_frames", int64(motionFrames))
+			if idx%7 == 3 && cfg.W < 100 {
+				c.Count("blinking_blob_streams", 1)
+			}
 			if via {
 				c.Count("streams_via_processor_api", 1)
 			} else {
